@@ -91,9 +91,18 @@ def explore(fn: Callable, *, budget_s: float = 120.0, per_path_s: float = 30.0, 
                     exc, _stack = efilter.user_exc
                     if isinstance(exc, NotDeterministic):
                         raise NotDeterministic
-                    cex = {k: _jsonable(deep_realize(v)) for k, v in pre_args.arguments.items()}
-                    outcome, csig, cdetail = run_concrete(fn, cex)   # untraced (NoTracing is active here)
-                    if outcome != 'violation':
+                    ksig = getattr(exc, 'sig', None)
+                    if type(ksig) is str and ksig in known_sigs and ksig in res['known_hits']:
+                        # a listed finding already reproduced concretely in this cell: count the path without realising its
+                        # inputs (realising forks the tree per value; over an unbounded integer that never ends)
+                        res['known_hits'][ksig]['n'] += 1
+                        outcome = csig = cdetail = None
+                    else:
+                        cex = {k: _jsonable(deep_realize(v)) for k, v in pre_args.arguments.items()}
+                        outcome, csig, cdetail = run_concrete(fn, cex)   # untraced (NoTracing is active here)
+                    if outcome is None:
+                        status = VerificationStatus.CONFIRMED
+                    elif outcome != 'violation':
                         try:
                             sym = type(exc).__name__ + ':' + repr(deep_realize(exc.args))[:300]
                         except Exception:  # noqa: BLE001
